@@ -32,7 +32,10 @@ Fill == << 0, 0 >>
 
 VARIABLES shape, cells, nw, coef, origin, made, act, hist
 vars == << shape, cells, nw, coef, origin, made, act, hist >>
-View == << shape, cells, nw, coef, origin, made >>
+State == << shape, cells, nw, coef, origin, made >>
+\* the view keeps one history per state AND per "the last call was refused": every call is also explored right after a
+\* refused one (a refusal stutters, but what it leaves behind in the implementation's session would show next)
+View == << State, act.out # "ok" >>
 
 Rank == Len(shape)
 CanStep == Len(hist) < MaxDepth
@@ -85,6 +88,12 @@ AppendAx(axis, k) ==
     /\ UNCHANGED << coef, origin, made >>
 
 \* data of another rank, or not matching off the axis, is refused
+\* creation refused for an argument of the wrong kind (the array must not exist afterwards)
+CreateBadKinds == { "dtype_unknown", "object_data", "mixed_text", "label_type", "unit_type" }
+CreateBad(kind) ==
+    /\ ~made /\ CanStep /\ "faults" \in Ops
+    /\ Refuse([name |-> "CreateBad", kind |-> kind, out |-> "refused:BadArgument"])
+
 AppendBad(kind) ==
     /\ made /\ CanStep /\ "faults" \in Ops
     /\ (kind = "shape") => Rank >= 2
@@ -109,11 +118,17 @@ SetOrigin(o) ==
     /\ origin' = o /\ Log([name |-> "SetOrigin", o |-> o, out |-> "ok"])
     /\ UNCHANGED << shape, cells, nw, coef, made >>
 
+\* coefficients that are not numbers are refused - and the stored ones stay
+SetCoefBad ==
+    /\ made /\ CanStep /\ "faults" \in Ops
+    /\ Refuse([name |-> "SetCoefBad", out |-> "refused:BadArgument"])
+
 Init == /\ shape = << >> /\ cells = << >> /\ nw = 0 /\ coef = << >> /\ origin = NONE /\ made = FALSE
         /\ act = [name |-> "Init", out |-> "ok"] /\ hist = << >>
 
 Next == \/ \E sh \in InitShapes, d \in BOOLEAN : Create(sh, d)
         \/ \E sh \in InitShapes : CreateMismatch(sh)
+        \/ \E kind \in CreateBadKinds : CreateBad(kind)
         \/ ("write" \in Ops /\ WriteAll)
         \/ ("assign" \in Ops /\ made /\ \E e \in AssignExprs[Rank] : Assign(e))
         \/ ("append" \in Ops /\ \E ax \in 1..4, k \in AppendLens : AppendAx(ax, k))
@@ -121,6 +136,7 @@ Next == \/ \E sh \in InitShapes, d \in BOOLEAN : Create(sh, d)
         \/ ("resize" \in Ops /\ made /\ \E ns \in [1..Rank -> ResizeTo] : Resize(ns))
         \/ ("calib" \in Ops /\ \E c \in CoefSets : SetCoef(c))
         \/ ("calib" \in Ops /\ \E o \in Origins : SetOrigin(o))
+        \/ ("calib" \in Ops /\ SetCoefBad)
 
 Spec == Init /\ [][Next]_vars
 
@@ -146,7 +162,7 @@ ShapeOK == made => (Len(cells) = Prod(shape) /\ \A d \in 1..Rank : shape[d] >= 0
 
 IsAct(n) == act'.name = n
 Refused == act'.out # "ok"
-RefusedUnchanged == [][Refused => View' = View]_vars
+RefusedUnchanged == [][Refused => State' = State]_vars
 
 \* calibration never touches the stored values
 CalibrationLeavesRaw == [][(IsAct("SetCoef") \/ IsAct("SetOrigin")) => (cells' = cells /\ shape' = shape)]_vars
